@@ -890,17 +890,18 @@ Proof.
   - vm_compute. tauto.
 Qed.
 
-(* D8.  bc_iter() has no incidence guard (has_incidences() returns true for cells): with face bottom-up
-   incidences disabled the constructor calls is_boundary(cell) -> is_boundary(halfface), which indexes the
-   empty incident-cell cache.  The state is reachable by valid calls and satisfies bu_exact / wf_iter. *)
+(* D8 (repaired in /repo by "fix: boundary cell iterator needs face bottom-up incidences"): the state on which
+   bc_iter() used to index the empty incident-cell cache; the guard now fails and the iterator is invalid at
+   construction (general statement: boundary_iter_unguarded_invalid below) *)
 Definition ex_d8 : mesh := run [AddVertices 3; AddFaceV [0; 1; 2]; AddCell [0] false; EnableFBU false].
-Lemma D8_bc_iter_undefined :
-  bu_exact ex_d8 /\ wf_iter ex_d8 /\ fbu ex_d8 = false /\ bnd_has_inc KC ex_d8 = true /\ bnd_begin KC ex_d8 = None.
+Example D8_bc_iter_invalid_at_construction :
+  bu_exact ex_d8 /\ wf_iter ex_d8 /\ fbu ex_d8 = false /\ bnd_has_inc KC ex_d8 = false /\
+  option_map b_obs (bnd_begin KC ex_d8) = Some ((-1)%Z, false).
 Proof.
   split; [apply bu_exact_b_sound; vm_compute; reflexivity|].
   split; [apply wf_iter_b_sound; vm_compute; reflexivity|]. vm_compute. auto.
 Qed.
-(* with face incidences enabled the same call is defined and yields the boundary cell *)
+(* with face incidences enabled the same call yields the boundary cell *)
 Example bc_iter_with_incidences :
   let s := run [AddVertices 3; AddFaceV [0; 1; 2]; AddCell [0] false] in
   exists b, bnd_begin KC s = Some b /\ b_obs b = (0%Z, true).
@@ -959,11 +960,16 @@ Definition bnd_of (k : kind) (s : mesh) (i : nat) : Prop :=
   | KM => False
   end.
 
-Lemma is_boundary_defined k s : k <> KM -> bu_exact s -> wf_iter s -> bnd_has_inc k s = true -> fbu s = true ->
+Lemma bnd_has_inc_fbu k s : k <> KM -> bnd_has_inc k s = true -> fbu s = true.
+Proof.
+  intros Hk H. destruct k; try congruence; unfold bnd_has_inc, full_bu in H; rewrite ?andb_true_iff in H; tauto.
+Qed.
+
+Lemma is_boundary_defined k s : k <> KM -> bu_exact s -> wf_iter s -> bnd_has_inc k s = true ->
   forall i, i < ent_n k s -> ent_deleted k s i = false ->
   is_boundary k s i = Some (bdry k s i) /\ (bdry k s i = true <-> bnd_of k s i).
 Proof.
-  intros Hk BU WF Hi Ff i Hn Hd. unfold bdry.
+  intros Hk BU WF Hi i Hn Hd. pose proof (bnd_has_inc_fbu k s Hk Hi) as Ff. unfold bdry.
   assert (G : forall b P, is_boundary k s i = Some b /\ (b = true <-> P) ->
               is_boundary k s i = Some (match is_boundary k s i with Some true => true | _ => false end) /\
               ((match is_boundary k s i with Some true => true | _ => false end) = true <-> P)).
@@ -978,21 +984,31 @@ Proof.
     destruct (isb_c_exact s BU WF i Ff L) as (b & E). eapply G; eauto.
 Qed.
 
-(* bv_iter / bhe_iter / be_iter / bhf_iter / bf_iter / bc_iter (the latter with face incidences enabled, see D8)
-   visit exactly the not-deleted entities that the brute-force scan classifies as boundary, ascending, once *)
+(* bv_iter / bhe_iter / be_iter / bhf_iter / bf_iter / bc_iter with their incidence guard satisfied visit exactly the not-deleted entities that the brute-force scan classifies as boundary, ascending, once *)
 Theorem boundary_iter_exact k s : k <> KM -> bu_exact s -> wf_iter s -> flags_sized s ->
-  bnd_has_inc k s = true -> fbu s = true ->
+  bnd_has_inc k s = true ->
   (exists b e, bnd_begin k s = Some b /\
                b_trace (S (ent_n k s)) (ent_rdel k s) (ent_n k s) (is_boundary k s) b
                = Some (map Z.of_nat (filter (fun i => negb (ent_deleted k s i) && bdry k s i) (seq 0 (ent_n k s))), e) /\
                b_valid e = false) /\
   (forall i, i < ent_n k s -> ent_deleted k s i = false -> (bdry k s i = true <-> bnd_of k s i)).
 Proof.
-  intros Hk BU WF FS Hi Ff. split.
+  intros Hk BU WF FS Hi. split.
   - unfold bnd_begin. rewrite Hi.
     apply (boundary_forward (ent_n k s) (ent_deleted k s) (ent_rdel k s) (ent_rdel_total k s Hk FS) (bdry k s) (is_boundary k s)); [|apply le_n].
-    intros i Hn Hd. apply (is_boundary_defined k s Hk BU WF Hi Ff i Hn Hd).
-  - intros i Hn Hd. apply (is_boundary_defined k s Hk BU WF Hi Ff i Hn Hd).
+    intros i Hn Hd. apply (is_boundary_defined k s Hk BU WF Hi i Hn Hd).
+  - intros i Hn Hd. apply (is_boundary_defined k s Hk BU WF Hi i Hn Hd).
+Qed.
+
+(* ... and with the guard failing (a needed incidence kind disabled) every one of the six is invalid at construction,
+   holds the invalid handle and has read nothing (for bc_iter this is the repaired D8) *)
+Theorem boundary_iter_unguarded_invalid k s : k <> KM -> flags_sized s -> bnd_has_inc k s = false ->
+  exists it0, bnd_begin k s = Some (mkB it0 false (-1)%Z).
+Proof.
+  intros Hk FS Hi. pose proof (ent_rdel_total k s Hk FS) as Hr.
+  destruct (entity_forward (ent_n k s) (ent_deleted k s) (ent_rdel k s) Hr (ent_n k s) (le_n _)) as (b & B & _).
+  exists b. unfold bnd_begin. rewrite Hi.
+  apply (boundary_no_incidences _ _ _ b (e_end (ent_n k s)) B (entity_end_state _ _ _ Hr)).
 Qed.
 
 Example boundary_iter_example :
